@@ -238,7 +238,12 @@ SEPARATOR_CASES = [((0, 0, 100, 50), (200, 200)), ((-3, 2, 10, 40), (30, 20)),
                    ((0.0, 0.0, 100 * _BIG, 50 * _BIG), (200 * _BIG, 200 * _BIG)),
                    ((-3 * _SMALL, 2 * _SMALL, 10 * _SMALL, 40 * _SMALL), (30 * _SMALL, 20 * _SMALL)),
                    ((1.5 * _BIG, -2.5 * _BIG, 4 * _BIG, 4 * _BIG), (8 * _SMALL, 6 * _SMALL)),
-                   ((0.0, -_SMALL, 7 * _SMALL, 3 * _SMALL), (7 * _BIG, 7 * _BIG))]
+                   ((0.0, -_SMALL, 7 * _SMALL, 3 * _SMALL), (7 * _BIG, 7 * _BIG)),
+                   # ... and in units whose *products* leave the float range (2^600, 2^-600):
+                   # a viewBox taller than the page, and one wider
+                   ((0.0, 0.0, 2.0 ** 600, 2.0 ** 601), (3 * 2.0 ** 600, 3 * 2.0 ** 600)),
+                   ((0.0, 2.0 ** -600, 2.0 ** -599, 2.0 ** -600), (5 * 2.0 ** -600, 3 * 2.0 ** -600)),
+                   ((-2.0 ** -600, 0.0, 2.0 ** -600, 2.0 ** -598), (3 * 2.0 ** -600, 3 * 2.0 ** -600))]
 
 
 def _separator_chunk(cases):
@@ -337,7 +342,7 @@ def run(ctx):
                 "at all (24 viewBoxes x 6 pages); viewBox numbers in every SVG spelling (leading "
                 "'.', '+', trailing '.', exponents) against the canonical spelling; the full "
                 "product of 10 x 8 separator/case spellings of the two attributes (space, comma, "
-                "tab, LF, CRLF, indented line breaks) for 8 geometries (four of them in units of 2^200 / 2^-200) x all 60 settings; malformed "
+                "tab, LF, CRLF, indented line breaks) for 11 geometries (seven of them in units of 2^+-200 / 2^+-600) x all 60 settings; malformed "
                 "viewBoxes and the sign lattice of the four sizes; non-trivial = uniform-scale cases whose aspect ratios differ "
                 "(alignment and meet/slice change the answer)",
         "samples": core.rotate(part.samples, ctx.seed, 4),
